@@ -1,12 +1,12 @@
 #!/bin/bash
 # Soak on the unchanged tree, meant for `vp run`: builds the snapshot's simulator and runs many
-# seeds of every check; prints only alarms. usage: soak.sh <runs per check> <seed> [<seed> ...]
+# seeds of every check (or of those named in PROPS); prints only alarms. usage: soak.sh <runs per check> <seed> [<seed> ...]
 HERE=$(pwd)
 export CARGO_NET_OFFLINE=true RUST_BACKTRACE=0 VERIF_DIR=$HERE
 (cd $HERE/sim && cargo build --release --offline 2>&1 | tail -1)
 RUNS=$1; shift
 for seed in "$@"; do
-  for p in C01 C02 C03 C04 C05 C06 C07 C08 C09 C10 C11 C12 C13 C14 C15 C16 C17 C19 C20; do
+  for p in ${PROPS:-C01 C02 C03 C04 C05 C06 C07 C08 C09 C10 C11 C12 C13 C14 C15 C16 C17 C19 C20}; do
     out=$(VERIF_SEED=$seed VERIF_RUNS=$RUNS VERIF_TIER=${TIER:-quick} $HERE/sim/target/release/simcheck check --property $p --tier ${TIER:-quick} 2>&1)
     echo "$out" | grep -E "violation:|VIOLATION|HARNESS|KNOWN" | cut -c1-600
     echo "$out" | tail -1 | sed "s/^/seed=$seed /"
